@@ -278,7 +278,7 @@ func startProc(args []string, extra []*os.File, stdout *os.File, root string, wr
 		if ws.Exited() || ws.Signaled() {
 			p.exited = true
 			p.kill()
-			return nil, infra("child %v ended during start-up", args[1])
+			return nil, infra("child %v ended during start-up (status %v)", args[1], ws)
 		}
 		if ws.Stopped() && ws.StopSignal() == syscall.SIGSTOP {
 			break
@@ -557,12 +557,13 @@ func keysOf(hist []wo.WriteOut) ([][2]int64, map[[2]int64]int) {
 }
 
 type outcome struct {
-	read    readOut
-	labels  []label
-	wops    []wo.Op
-	wsteps  int
-	rsteps  int
-	writeOK bool
+	read     readOut
+	labels   []label
+	wops     []wo.Op
+	wsteps   int
+	rsteps   int
+	writeOK  bool
+	writeErr string
 }
 
 func window(h []wo.WriteOut) (int64, int64) {
@@ -705,6 +706,7 @@ func runOnce(in Input, tag string) (*outcome, error) {
 			nl++
 			if !cr.OK {
 				out.writeOK = false
+				out.writeErr = cr.Err
 			}
 		}
 	}
@@ -790,7 +792,7 @@ func runCase(in Input) (*vhlib.Case, error) {
 	}
 	c.Tags = []string{mode, in.Why, fmt.Sprintf("enoent-%d", min(nEnoent, 3))}
 	if !out.writeOK {
-		return nil, infra("a fault-free write-out failed")
+		return nil, infra("a fault-free write-out failed: %s (input %s)", out.writeErr, hashOf(in))
 	}
 	c.Nontrivial = len(in.Sched) > 0
 	return c, nil
@@ -834,12 +836,66 @@ func calibrate(hist []wo.WriteOut) (*calib, error) {
 	return c, nil
 }
 
+// ownHists: histories with write-outs WITHOUT flows before write-outs with flows within one day: reading the
+// flow-less block creates the handles of the attribute columns without opening their files (RawLen = 0)
+func ownHists() [][]wo.WriteOut {
+	return [][]wo.WriteOut{{
+		{ID: 0, Iface: "eth0", TS: 1700300100, NV4: 0, NV6: 0, Drops: 1},
+		{ID: 1, Iface: "eth0", TS: 1700300400, NV4: 2, NV6: 1, Drops: 0},
+		{ID: 2, Iface: "eth0", TS: 1700300700, NV4: 1, NV6: 1, Drops: 2},
+		{ID: 3, Iface: "eth0", TS: 1700301000, NV4: 0, NV6: 0, Drops: 1},
+		{ID: 4, Iface: "eth0", TS: 1700301300, NV4: 1, NV6: 0, Drops: 0},
+	}}
+}
+
+// prefixCal: the writer's number of DB calls for a history and the reader's column opens on the resulting DB
+type prefixCal struct {
+	nW       int
+	colOpens []int
+}
+
+func calibPrefix(h []wo.WriteOut) (*prefixCal, error) {
+	out, err := retry(3, func() (*outcome, error) { return runOnce(Input{Hist: h, Query: true, Sched: []int{big}}, "pcal") })
+	if err != nil {
+		return nil, err
+	}
+	c := &prefixCal{nW: out.wsteps}
+	for i, l := range out.labels {
+		if l.Kind == 7 {
+			c.colOpens = append(c.colOpens, i)
+		}
+	}
+	return c, nil
+}
+
+// staleHandle: the reader has processed the blocks committed by the first j write-outs up to one of its column
+// opens, then write-out j+1 runs completely (commit + directory rename), then the reader goes on: column handles
+// created under the old name (opened or not) meet the renamed directory
+func staleHandle(h []wo.WriteOut) ([]Input, error) {
+	var res []Input
+	cals := make([]*prefixCal, len(h)+1)
+	for j := 1; j <= len(h); j++ {
+		c, err := calibPrefix(h[:j])
+		if err != nil {
+			return nil, err
+		}
+		cals[j] = c
+	}
+	for j := 1; j < len(h); j++ {
+		for _, eo := range cals[j].colOpens {
+			res = append(res, Input{Hist: h, Query: true, Sched: []int{cals[j].nW, eo, cals[j+1].nW - cals[j].nW, big}, Why: "stale-handle"})
+			res = append(res, Input{Hist: h, Query: true, Sched: []int{cals[j].nW, eo + 1, cals[j+1].nW - cals[j].nW, big}, Why: "stale-handle"})
+		}
+	}
+	return res, nil
+}
+
 func buildPlan(seed uint64, n int, tier string, search bool) []Input {
 	r := vhlib.NewRand(seed)
-	hists := wo.FixedHists()
-	nh, nrand, stride := 3, 60, 2
+	hists := append(wo.FixedHists()[:2:2], ownHists()...)
+	nh, nrand, stride := 4, 60, 2
 	if tier == "thorough" {
-		nh, nrand, stride = 8, 2000, 1
+		nh, nrand, stride = 9, 2000, 1
 	}
 	if search {
 		nh, nrand = nh+2, nrand*3
@@ -880,15 +936,34 @@ func buildPlan(seed uint64, n int, tier string, search bool) []Input {
 					if ri+1 < len(c.renames) {
 						d2 := c.renames[ri+1]
 						p = append(p, Input{Hist: h, Query: q, Sched: []int{d, eo, 1, 2, d2 - d, big}, Why: "double-rename"})
+						// the second rename lands after the re-Open has found the directory, before the column is opened again
+						p = append(p, Input{Hist: h, Query: q, Sched: []int{d, eo, 1, 4, d2 - d, big}, Why: "rename-during-reopen"})
 					}
 				}
 			}
 		}
 	}
-	// (2) reader atomic at the writer's call boundaries
+	// (1b) a complete write-out between two of the reader's column opens (stale column handles); kept in full
+	// for the own history, sampled for the others
+	var must []Input
+	for i, h := range hists {
+		sh, err := staleHandle(h)
+		if err != nil {
+			fatal(err)
+		}
+		if i == 2 {
+			must = append(must, sh...)
+		} else {
+			p = append(p, sh...)
+		}
+	}
+	// (2) reader atomic at the writer's call boundaries: EVERY boundary of history 0 for the query (kept
+	// in full, never sampled away), strided for the other histories and for the listing
 	for i, h := range hists {
 		for k := 0; k <= cals[i].nW; k++ {
-			if (k+i)%stride == 0 {
+			if i == 0 {
+				must = append(must, Input{Hist: h, Query: true, Sched: []int{k, big}, Why: "atomic"})
+			} else if (k+i)%stride == 0 {
 				p = append(p, Input{Hist: h, Query: true, Sched: []int{k, big}, Why: "atomic"})
 			}
 			if (k+i)%(2*stride) == 0 {
@@ -909,16 +984,37 @@ func buildPlan(seed uint64, n int, tier string, search bool) []Input {
 			sc = append(sc, vhlib.Pick(rr, []int{1, 1, 1, 2, 2, 3, 5}))
 			sc = append(sc, vhlib.Pick(rr, []int{0, 1, 1, 1, 2, 3, 5, 8, 20, 45}))
 		}
-		p = append(p, Input{Hist: hists[i], Query: !rr.Chance(35), Sched: sc, Why: "random"})
+		rin := Input{Hist: hists[i], Query: !rr.Chance(35), Sched: sc, Why: "random"}
+		if j < 30 {
+			must = append(must, rin) // the first 30 random schedules are always run
+		} else {
+			p = append(p, rin)
+		}
 	}
-	if len(p) > n {
-		// keep a mixture: take evenly
-		q := make([]Input, 0, n)
-		for i := 0; i < n; i++ {
-			q = append(q, p[i*len(p)/n])
+	if len(must) > n {
+		must = must[:n]
+	}
+	if len(p) > n-len(must) {
+		// keep a mixture of the rest: take evenly
+		m := n - len(must)
+		q := make([]Input, 0, m)
+		for i := 0; i < m; i++ {
+			q = append(q, p[i*len(p)/m])
 		}
 		p = q
 	}
+	p = append(p, must...)
+	// identical inputs would share a scratch directory: keep the first of each
+	seen := map[string]bool{}
+	uniq := p[:0]
+	for _, in := range p {
+		k := hashOf(in)
+		if !seen[k] {
+			seen[k] = true
+			uniq = append(uniq, in)
+		}
+	}
+	p = uniq
 	return p
 }
 
